@@ -71,8 +71,10 @@ def c_trailing_newline_path(v):
 
 def c_glob_charclass(v):
     """'[' ... ']' in a literal search value is read as a character class by glob2re / glob.glob."""
-    s = _case(v).get("search") or ""
-    return "[" in s and "]" in s[s.index("["):]
+    c = _case(v)
+    s = c.get("search") or ""
+    return (v.get("kind", "").split(":")[-1] in ("find_set_differs", "match_differs")
+            and "[" in s and "]" in s[s.index("["):])
 
 
 CLASSIFIERS = {
